@@ -40,6 +40,8 @@ class ComputationItem(EFLRItem, DimensionedItem):
     def _run_checks_and_set_defaults(self) -> None:
         """Set up default values of ComputationItem parameters if not explicitly set previously."""
 
+        self._forget_derived_dimension()
+
         if self.values.value is not None and self.zones.value is not None:
             if (nv := len(self.values.value)) != (nz := self.zones.count):
                 raise RuntimeError("A Computation must have the same number of values and zones if both are "
